@@ -98,14 +98,14 @@ template <class I, class Q> void call_stop(I& impl, const Q& rq) {
 bool ends_with(const std::string& s, const char* suf) { const std::string x(suf); return s.size() >= x.size() && s.compare(s.size() - x.size(), x.size(), x) == 0; }
 }
 // ---------------------------------------------------------------- C27: with a configured token, STORE / FETCH / STOP without the exact token have no effect
-// command: 0 STOP, 1 STORE, 2 FETCH to a daemon-side path, 3 FETCH streamed; token_form: 0 absent, 1 same length, 2 shorter, 3 longer
+// command: 0 STOP, 1 STORE, 2 FETCH to a daemon-side path, 3 FETCH streamed; token_form: 0 absent, 1 same length, 2 shorter, 3 longer, 4 / 5 longer by 256 / 512 bytes
 extern "C" void h_c27_gate(unsigned long command, unsigned long token_form) {
     FakeNode node; node.cfg.control_token = std::string("tok"); node.cfg.store_pow_difficulty = 0;
     node.cfg.min_manifest_ttl = std::chrono::seconds(1); node.cfg.max_manifest_ttl = std::chrono::seconds(1000); node.cfg.default_chunk_ttl = std::chrono::seconds(10);
     std::mutex m; FakeImpl impl(node, m);
     g_rec = Rec{}; g_manifest = protocol::Manifest{}; g_decodable = true; verif_env::g_steady_ns = 1000000000LL;
     ParsedRequest rq; rq.payload = {1, 2, 3}; rq.payload_header_present = true;
-    if (token_form) { const std::string t = sym_text(token_form == 1 ? 3 : token_form == 2 ? 2 : 4, "token"); verif_assume(t != "tok"); rq.fields["TOKEN"] = t; }
+    if (token_form) { const std::string t = sym_text(token_form == 1 ? 3 : token_form == 2 ? 2 : token_form == 3 ? 4 : token_form == 4 ? 259 : 515, "token"); verif_assume(t != "tok"); rq.fields["TOKEN"] = t; }
     rq.fields["MANIFEST"] = "eph://m";
     if (command == 2) rq.fields["OUT"] = "out.bin";
     if (command == 3) rq.fields["STREAM"] = "client";
